@@ -1,5 +1,6 @@
 import Ptn.C02.Graph
 import Ptn.C02.ContractSpec
+import Ptn.C02.Labels
 /-! `contract_nodes` preserves well-formedness of the TTN model: refinement of the dictionary
 manipulations to the pure graph operation `contractS`.  Core Lean only. -/
 namespace Ptn.C02
@@ -230,6 +231,241 @@ theorem contracted_node_facts {t t1 : TTN} (h : t.WF) {pid cid id1 : Id} {P C nn
     · rw [(e5 hid).1, List.mem_append, hmem]
       exact Or.comm
 
+/-- The legs of the contracted node: its virtual legs are those of the parent (without the one to the
+    child) and of the child (without the one to the parent), each with the axis it had; its open axes are
+    the open axes of `node_id1` followed by those of `node_id2`. -/
+theorem contracted_node_legs {t t1 : TTN} (h : t.WF) {pid cid id1 : Id} {P C : NodeS}
+    {LP LC newT : Tensor} {idx : Nat}
+    (hP : t.N pid = some P) (hC : t.N cid = some C) (hCp : C.parent = some pid)
+    (hP1 : t1.N pid = some P.resetPermutation) (hC1 : t1.N cid = some C.resetPermutation)
+    (hLP : LP.length = P.perm.length) (hLC : LC.length = C.perm.length)
+    (hidx : P.neighbourIndex cid = some idx)
+    (htd : tensordot1 LP LC idx 0 = some newT) :
+    ∃ nn Lnew, t1.createContractedNode newT pid cid id1 = some nn ∧ transposeT newT nn.perm = some Lnew ∧
+      (∀ x ax, (x, ax) ∈ nn.neighbours.zip Lnew ↔
+        (((x, ax) ∈ P.neighbours.zip LP ∧ x ≠ cid) ∨ ((x, ax) ∈ C.neighbours.zip LC ∧ x ≠ pid))) ∧
+      Lnew.drop nn.nvirt = (if id1 = pid then LP.drop P.nvirt ++ LC.drop C.nvirt
+                            else LC.drop C.nvirt ++ LP.drop P.nvirt) := by
+  have hstr := h.str
+  have hSP := TTN.S_eq hP
+  have hSC : t.S cid = some (some pid, C.children) := by rw [TTN.S_eq hC, hCp]
+  have hcidP : cid ∈ P.children := by
+    obtain ⟨pp, pch, e1, e2⟩ := hstr.up cid pid C.children hSC
+    rw [hSP] at e1; simp at e1; rw [e1.2]; exact e2
+  have hPnd : P.children.Nodup := hstr.nodup pid _ _ hSP
+  have hCnd : C.children.Nodup := hstr.nodup cid _ _ hSC
+  have hgc : ¬ P.parent = some cid := by
+    intro e
+    exact hstr.no_two_cycle (a := pid) (b := cid) (by rw [hSP, e]) hSC
+  have hpidC : pid ∉ C.children := by
+    intro hm
+    obtain ⟨cch, e1⟩ := hstr.down cid _ _ pid hSC hm
+    rw [hSP] at e1; simp at e1
+    exact hgc e1.1
+  obtain ⟨K1, K2, hK⟩ := List.append_of_mem hcidP
+  have hK1 : cid ∉ K1 := by
+    intro hm
+    rw [hK] at hPnd
+    have := List.nodup_append.mp hPnd
+    exact this.2.2 cid hm cid (by simp) rfl
+  have hK2 : cid ∉ K2 := by
+    intro hm
+    rw [hK] at hPnd
+    have := (List.nodup_append.mp hPnd).2.1
+    rw [List.nodup_cons] at this
+    exact this.1 hm
+  have hKnd : (K1 ++ K2 ++ C.children).Nodup := by
+    rw [List.nodup_append]
+    refine ⟨?_, hCnd, ?_⟩
+    · rw [hK] at hPnd
+      have h1 := List.nodup_append.mp hPnd
+      have h2 := List.nodup_cons.mp h1.2.1
+      rw [List.nodup_append]
+      exact ⟨h1.1, h2.2, fun a ha b hb => h1.2.2 a ha b (List.mem_cons_of_mem _ hb)⟩
+    · intro a ha b hb e
+      subst e
+      have haP : a ∈ P.children := by
+        rw [hK]; rcases List.mem_append.mp ha with h' | h'
+        · simp [h']
+        · simp [h']
+      obtain ⟨c1, e1⟩ := hstr.down pid _ _ a hSP haP
+      obtain ⟨c2, e2⟩ := hstr.down cid _ _ a hSC hb
+      rw [e1] at e2; simp at e2
+      exact hstr.parent_ne hSC e2.1
+  have hwP := h.node pid P hP
+  have hwC := h.node cid C hC
+  have hnvP : P.nvirt = P.nparents + (K1.length + 1 + K2.length) := by
+    simp [nvirt_def, hK]; omega
+  have hnvC : C.nvirt = 1 + C.children.length := by
+    simp [nvirt_def, nparents_some hCp]
+  have hvP := hwP.virt
+  have hvC := hwC.virt
+  -- the index of the contracted leg
+  have hidx' : idx = P.nparents + K1.length := by
+    unfold neighbourIndex at hidx
+    simp only [hgc, if_false, hcidP, if_true, Option.some.injEq] at hidx
+    rw [← hidx, hK, idxOf_append_not_mem K1 K2 cid hK1]
+    omega
+  -- the blocks of the two logical tensors
+  obtain ⟨Tp, Tc1, Tb, Tc2, To, hLPs, l1, l2, l3, l4⟩ :=
+    five_split LP P.nparents K1.length 1 K2.length (by rw [hLP]; omega)
+  obtain ⟨Tb', Tcc, Tco, T4, T5, hLCs, m1, m2, m3, m4⟩ :=
+    five_split LC 1 C.children.length 0 0 (by rw [hLC]; omega)
+  have hT4 : T4 = [] := List.eq_nil_of_length_eq_zero m4
+  have hTco0 : Tco = [] := List.eq_nil_of_length_eq_zero m3
+  obtain ⟨b, hb⟩ : ∃ b, Tb = [b] := by
+    match Tb, l3 with
+    | [b], _ => exact ⟨b, rfl⟩
+  obtain ⟨bc, hbc⟩ : ∃ bc, Tb' = [bc] := by
+    match Tb', m1 with
+    | [bc], _ => exact ⟨bc, rfl⟩
+  subst hb hbc hT4 hTco0
+  have hLC' : LC = bc :: (Tcc ++ T5) := by rw [hLCs]; simp
+  have hnewT : newT = Tp ++ (Tc1 ++ Tc2) ++ To ++ Tcc ++ T5 := by
+    unfold tensordot1 at htd
+    split at htd
+    · split at htd
+      · simp only [Option.some.injEq] at htd
+        rw [← htd, hLPs, hLC', hidx']
+        have e1 : Tp ++ Tc1 ++ [b] ++ Tc2 ++ To = (Tp ++ Tc1) ++ (b :: (Tc2 ++ To)) := by simp
+        rw [e1, List.eraseIdx_append_of_length_le (by simp [l1, l2])]
+        have e2 : P.nparents + K1.length - (Tp ++ Tc1).length = 0 := by simp [l1, l2]
+        rw [e2]
+        simp
+      · simp at htd
+    · simp at htd
+  have haux := create_contracted_node_aux t1 pid cid id1 P.resetPermutation C.resetPermutation newT hP1 hC1
+    K1 K2 hK hK1 hKnd Tp (Tc1 ++ Tc2) To Tcc T5 hnewT (by rw [l1, reset_nparents]) (by simp [l2, l4])
+    (by
+      rw [reset_nvirt, reset_nlegs]
+      have : LP.length = Tp.length + Tc1.length + 1 + Tc2.length + To.length := by rw [hLPs]; simp; omega
+      simp only [nlegs]
+      omega) m2
+  obtain ⟨nn, e0, e1, e2, e3, e4, e5⟩ := haux
+  have hpar : nn.parent = P.parent := e1
+  -- the neighbour lists
+  have hPnb : P.neighbours.zip LP = P.parent.toList.zip Tp ++ (K1.zip Tc1 ++ (cid, b) :: K2.zip Tc2) := by
+    unfold NodeS.neighbours
+    rw [hK, hLPs]
+    have e : Tp ++ Tc1 ++ [b] ++ Tc2 ++ To = Tp ++ (Tc1 ++ (b :: Tc2 ++ To)) := by simp
+    rw [e, List.zip_append (by
+      rw [l1]; unfold nparents; cases P.parent <;> simp)]
+    congr 1
+    rw [List.zip_append (by rw [l2])]
+    congr 1
+    have e' : b :: Tc2 ++ To = b :: (Tc2 ++ To) := rfl
+    rw [e', List.zip_cons_cons]
+    congr 1
+    have : K2.zip (Tc2 ++ To) = K2.zip Tc2 ++ ([] : List Id).zip To := by
+      rw [← List.zip_append (by rw [l4])]; simp
+    rw [this]; simp
+  have hCnb : C.neighbours.zip LC = (pid, bc) :: C.children.zip Tcc := by
+    unfold NodeS.neighbours
+    rw [hCp, hLC']
+    simp only [Option.toList_some, List.singleton_append, List.zip_cons_cons]
+    congr 1
+    have : C.children.zip (Tcc ++ T5) = C.children.zip Tcc ++ ([] : List Id).zip T5 := by
+      rw [← List.zip_append (by rw [m2])]; simp
+    rw [this]; simp
+  have hgpl : P.parent.toList.length = Tp.length := by
+    rw [l1]; unfold nparents; cases P.parent <;> simp
+  have memP : ∀ x ax, (x, ax) ∈ P.parent.toList.zip Tp → x ≠ cid ∧ x ≠ pid := by
+    intro x ax hm
+    have hx := (List.of_mem_zip hm).1
+    cases hp : P.parent with
+    | none => rw [hp] at hx; simp at hx
+    | some g =>
+      rw [hp] at hx
+      simp at hx
+      subst hx
+      refine ⟨fun e => hgc (by rw [hp, e]), fun e => ?_⟩
+      exact hstr.parent_ne (k := pid) (p := x) (by rw [hSP, hp]) e
+  have memK1 : ∀ x ax, (x, ax) ∈ K1.zip Tc1 → x ≠ cid := fun x ax hm e =>
+    hK1 (e ▸ (List.of_mem_zip hm).1)
+  have memK2 : ∀ x ax, (x, ax) ∈ K2.zip Tc2 → x ≠ cid := fun x ax hm e =>
+    hK2 (e ▸ (List.of_mem_zip hm).1)
+  have memC : ∀ x ax, (x, ax) ∈ C.children.zip Tcc → x ≠ pid := fun x ax hm e =>
+    hpidC (e ▸ (List.of_mem_zip hm).1)
+  have hdropP : LP.drop P.nvirt = To := by
+    rw [hLPs]
+    exact List.drop_left' (by simp [l1, l2, l4, hnvP]; omega)
+  have hdropC : LC.drop C.nvirt = T5 := by
+    rw [hLC', hnvC]
+    have : bc :: (Tcc ++ T5) = ([bc] ++ Tcc) ++ T5 := by simp
+    rw [this]
+    exact List.drop_left' (by simp [m2]; omega)
+  have hnnv : nn.nvirt = P.nparents + nn.children.length := by
+    rw [nvirt_def, nparents_congr hpar]
+  by_cases hid : id1 = pid
+  · obtain ⟨c1', c2⟩ := e4 hid
+    have c1 : nn.children = K1 ++ K2 ++ C.children := c1'
+    refine ⟨nn, _, e0, c2, ?_, ?_⟩
+    · intro x ax
+      have hnb : nn.neighbours.zip (Tp ++ (Tc1 ++ Tc2 ++ Tcc) ++ (To ++ T5)) =
+          P.parent.toList.zip Tp ++ (K1.zip Tc1 ++ K2.zip Tc2 ++ C.children.zip Tcc) := by
+        unfold NodeS.neighbours
+        rw [hpar, c1]
+        have e : Tp ++ (Tc1 ++ Tc2 ++ Tcc) ++ (To ++ T5) = Tp ++ ((Tc1 ++ Tc2 ++ Tcc) ++ (To ++ T5)) := by simp
+        rw [e, List.zip_append hgpl]
+        congr 1
+        have e' : (K1 ++ K2 ++ C.children).zip ((Tc1 ++ Tc2 ++ Tcc) ++ (To ++ T5)) =
+            (K1 ++ K2 ++ C.children).zip (Tc1 ++ Tc2 ++ Tcc) ++ ([] : List Id).zip (To ++ T5) := by
+          rw [← List.zip_append (by simp [l2, l4, m2])]; simp
+        rw [e']
+        simp only [List.zip_nil_left, List.append_nil]
+        rw [List.zip_append (by simp [l2, l4]), List.zip_append (by rw [l2])]
+      rw [hnb, hPnb, hCnb]
+      simp only [List.mem_append, List.mem_cons, Prod.mk.injEq]
+      constructor
+      · rintro (h' | (h' | h') | h')
+        · exact Or.inl ⟨Or.inl h', (memP x ax h').1⟩
+        · exact Or.inl ⟨Or.inr (Or.inl h'), memK1 x ax h'⟩
+        · exact Or.inl ⟨Or.inr (Or.inr (Or.inr h')), memK2 x ax h'⟩
+        · exact Or.inr ⟨Or.inr h', memC x ax h'⟩
+      · rintro (⟨h' | h' | h' | h', hne⟩ | ⟨h' | h', hne⟩)
+        · exact Or.inl h'
+        · exact Or.inr (Or.inl (Or.inl h'))
+        · exact absurd h'.1 hne
+        · exact Or.inr (Or.inl (Or.inr h'))
+        · exact absurd h'.1 hne
+        · exact Or.inr (Or.inr h')
+    · rw [if_pos hid, hdropP, hdropC]
+      exact List.drop_left' (by rw [hnnv, c1]; simp [l1, l2, l4, m2])
+  · obtain ⟨c1', c2⟩ := e5 hid
+    have c1 : nn.children = C.children ++ (K1 ++ K2) := c1'
+    refine ⟨nn, _, e0, c2, ?_, ?_⟩
+    · intro x ax
+      have hnb : nn.neighbours.zip (Tp ++ (Tcc ++ (Tc1 ++ Tc2)) ++ (T5 ++ To)) =
+          P.parent.toList.zip Tp ++ (C.children.zip Tcc ++ (K1.zip Tc1 ++ K2.zip Tc2)) := by
+        unfold NodeS.neighbours
+        rw [hpar, c1]
+        have e : Tp ++ (Tcc ++ (Tc1 ++ Tc2)) ++ (T5 ++ To) = Tp ++ ((Tcc ++ (Tc1 ++ Tc2)) ++ (T5 ++ To)) := by simp
+        rw [e, List.zip_append hgpl]
+        congr 1
+        have e' : (C.children ++ (K1 ++ K2)).zip ((Tcc ++ (Tc1 ++ Tc2)) ++ (T5 ++ To)) =
+            (C.children ++ (K1 ++ K2)).zip (Tcc ++ (Tc1 ++ Tc2)) ++ ([] : List Id).zip (T5 ++ To) := by
+          rw [← List.zip_append (by simp [l2, l4, m2])]; simp
+        rw [e']
+        simp only [List.zip_nil_left, List.append_nil]
+        rw [List.zip_append (by rw [m2]), List.zip_append (by rw [l2])]
+      rw [hnb, hPnb, hCnb]
+      simp only [List.mem_append, List.mem_cons, Prod.mk.injEq]
+      constructor
+      · rintro (h' | h' | h' | h')
+        · exact Or.inl ⟨Or.inl h', (memP x ax h').1⟩
+        · exact Or.inr ⟨Or.inr h', memC x ax h'⟩
+        · exact Or.inl ⟨Or.inr (Or.inl h'), memK1 x ax h'⟩
+        · exact Or.inl ⟨Or.inr (Or.inr (Or.inr h')), memK2 x ax h'⟩
+      · rintro (⟨h' | h' | h' | h', hne⟩ | ⟨h' | h', hne⟩)
+        · exact Or.inl h'
+        · exact Or.inr (Or.inr (Or.inl h'))
+        · exact absurd h'.1 hne
+        · exact Or.inr (Or.inr (Or.inr h'))
+        · exact absurd h'.1 hne
+        · exact Or.inr (Or.inl h')
+    · rw [if_neg hid, hdropP, hdropC]
+      exact List.drop_left' (by rw [hnnv, c1]; simp [l1, l2, l4, m2])
+
 /-! ### what happens to the other nodes -/
 
 /-- `n'` is `n` with its references renamed (`contractRen`) and the same array bookkeeping. -/
@@ -401,7 +637,13 @@ theorem contract_final {t t' : TTN} {id1 id2 new : Id} (h : t.WF)
         (∀ n, t.N k = some n → ∃ n', t'.N k = some n' ∧ CRel pid cid new n n')) ∧
       (∀ k, dget t'.tensors k = if k = new then some newT
                                 else if k = pid ∨ k = cid then none else dget t.tensors k) ∧
-      t'.root = (if P.parent = none then some new else t.root) := by
+      t'.root = (if P.parent = none then some new else t.root) ∧
+      (∃ LP LC Lnew, t.logical pid = some LP ∧ t.logical cid = some LC ∧
+        transposeT newT nn.perm = some Lnew ∧
+        (∀ x ax, (x, ax) ∈ nn.neighbours.zip Lnew ↔
+          (((x, ax) ∈ P.neighbours.zip LP ∧ x ≠ cid) ∨ ((x, ax) ∈ C.neighbours.zip LC ∧ x ≠ pid))) ∧
+        Lnew.drop nn.nvirt = (if id1 = pid then LP.drop P.nvirt ++ LC.drop C.nvirt
+                              else LC.drop C.nvirt ++ LP.drop P.nvirt)) := by
   unfold TTN.contractNodes at hc
   cases hdp : t.determineParentage id1 id2 with
   | none => simp [hdp, bind, Option.bind] at hc
@@ -446,6 +688,11 @@ theorem contract_final {t t' : TTN} {id1 id2 new : Id} (h : t.WF)
             have hfacts := contracted_node_facts h hP hC hCp hP1 hC1
               (transposeT_length hLP).1 (transposeT_length hLC).1 htd hcc
             obtain ⟨n1, n2, n3, n4, n5, n6⟩ := hfacts
+            obtain ⟨nn', Lnew, hcc', g1, g2, g3⟩ := contracted_node_legs (id1 := id1) h hP hC hCp hP1 hC1
+              (transposeT_length hLP).1 (transposeT_length hLC).1 hidx htd
+            rw [hcc] at hcc'
+            simp only [Option.some.injEq] at hcc'
+            subst hcc'
             refine ⟨pid, cid, P, C, nn, newT, hP, hC, hCp, hids, hnew', n1, n2, n3, n4, n5, n6, ?_⟩
             have hfin : ∀ k, TTN.N (⟨dset t3.nodes new nn, t3.tensors, t3.root, t3.nextLabel⟩ : TTN) k =
                 if k = new then some nn else t3.N k := by
@@ -620,7 +867,8 @@ theorem contract_final {t t' : TTN} {id1 id2 new : Id} (h : t.WF)
                   · rw [hroot3, hO2p]
                     simp [hroot2']
             obtain ⟨k1, k2, k3, k4⟩ := key
-            refine ⟨by rw [hfin]; simp, ?_, ?_, ?_, ?_, k4⟩
+            refine ⟨by rw [hfin]; simp, ?_, ?_, ?_, ?_, k4, LP, LC, Lnew,
+              by rw [logical_eq hP hTP]; exact hLP, by rw [logical_eq hC hTC]; exact hLC, g1, g2, g3⟩
             · intro hne; rw [hfin]; simp [hne, k1 pid hne (Or.inl rfl)]
             · intro hne; rw [hfin]; simp [hne, k1 cid hne (Or.inr rfl)]
             · intro k hk hkp hkc
@@ -654,7 +902,7 @@ theorem wfn_of_crel {pid cid new : Id} {n n' : NodeS} (hr : CRel pid cid new n n
 theorem contract_nodes_wf_aux {t t' : TTN} {id1 id2 new : Id} (h : t.WF)
     (hnew : new = id1 ∨ new = id2 ∨ t.N new = none)
     (hc : t.contractNodes id1 id2 new = some t') : t'.WF := by
-  obtain ⟨pid, cid, P, C, nn, newT, hP, hC, hCp, _, hnew', n1, n2, n3, n4, n5, _, a1, a2, a3, a4, a5, a6⟩ :=
+  obtain ⟨pid, cid, P, C, nn, newT, hP, hC, hCp, _, hnew', n1, n2, n3, n4, n5, _, a1, a2, a3, a4, a5, a6, _⟩ :=
     contract_final h hnew hc
   have hSP : t.S pid = some (P.parent, P.children) := TTN.S_eq hP
   have hSC : t.S cid = some (some pid, C.children) := by rw [TTN.S_eq hC, hCp]
